@@ -355,7 +355,9 @@ def parseField (fuel : Nat) : P Field := do
           "; operator is intended for WHERE clause".toList)
       | none => pure e
   let alias ← parseAlias
-  consumeWhitespace
+  -- `p.ScanIgnoreWhitespace(); p.Unscan()`: whitespace and comments after the alias
+  let _ ← scanIW
+  unscan
   pure ⟨e, alias⟩
 
 def fieldsLoop (fuel : Nat) : Nat → List Field → P (List Field)
